@@ -220,6 +220,29 @@ class _N(ast.NodeTransformer):
 
     def visit_If(self, node: ast.If):
         self.generic_visit(node)
+        # N26: if not any(P for T in IT): BODY      ->      for T in IT: if P: break   else: BODY
+        # (the existential scan in its loop form, which the scan rules follow; T must not be a name the function uses elsewhere)
+        t = node.test
+        if self._in_func and not node.orelse and isinstance(t, ast.UnaryOp) and isinstance(t.op, ast.Not) and isinstance(t.operand, ast.Call) \
+                and isinstance(t.operand.func, ast.Name) and t.operand.func.id == "any" and len(t.operand.args) == 1 \
+                and not t.operand.keywords and isinstance(t.operand.args[0], ast.GeneratorExp) \
+                and len(t.operand.args[0].generators) == 1 and not t.operand.args[0].generators[0].ifs \
+                and not t.operand.args[0].generators[0].is_async:
+            g = t.operand.args[0]
+            gen = g.generators[0]
+            tnames = {n.id for n in ast.walk(gen.target) if isinstance(n, ast.Name)}
+            inside = {}
+            for n in ast.walk(g):
+                if isinstance(n, ast.Name) and isinstance(n.ctx, ast.Load) and n.id in tnames:
+                    inside[n.id] = inside.get(n.id, 0) + 1
+            if tnames and tnames <= self._comp_only and not (tnames & self._params) and not (tnames & self._declared):
+                brk = ast.copy_location(ast.Break(), node)
+                inner = ast.copy_location(ast.If(test=g.elt, body=[brk], orelse=[]), node)
+                loop = ast.For(target=gen.target, iter=gen.iter, body=[inner], orelse=node.body, type_comment=None)
+                for n in ast.walk(gen.target):
+                    if isinstance(n, (ast.Name, ast.Tuple, ast.List)):
+                        n.ctx = ast.Store()
+                return ast.copy_location(loop, node)
         # N9: two single-statement arms doing the same thing with different values become one conditional expression
         def _calls_private(st) -> bool:
             # a value computed by a private helper stays a statement, so that the inlined view (sa/inline.py) can expand it
@@ -535,6 +558,7 @@ class _N(ast.NodeTransformer):
     _uses: dict = {}
     _declared: set = set()
     _params: set = set()
+    _comp_only: set = set()
 
     def generic_visit(self, node):
         node = super().generic_visit(node)
@@ -542,7 +566,10 @@ class _N(ast.NodeTransformer):
             v = getattr(node, fld, None)
             if isinstance(v, list) and v and isinstance(v[0], ast.stmt):
                 is_def = fld == "body" and isinstance(node, (ast.FunctionDef, ast.AsyncFunctionDef, ast.ClassDef, ast.Module))
-                setattr(node, fld, self._block(v, is_def))
+                nb = self._block(v, is_def)
+                if fld in ("orelse", "finalbody") and len(nb) == 1 and isinstance(nb[0], ast.Pass):
+                    nb = []                      # an else / finally arm that has become empty is no arm
+                setattr(node, fld, nb)
         if isinstance(node, ast.Try):
             for h in node.handlers:
                 h.body = self._block(h.body)
@@ -562,6 +589,21 @@ class _N(ast.NodeTransformer):
             if isinstance(n, ast.Name) and isinstance(n.ctx, ast.Load):
                 uses[n.id] = uses.get(n.id, 0) + 1
         self._uses = uses
+        # names that occur only as comprehension variables (every occurrence lies inside a comprehension that binds the name)
+        saved_co = self._comp_only
+        bound_in = {}
+        total = {}
+        for n in ast.walk(node):
+            if isinstance(n, ast.Name):
+                total[n.id] = total.get(n.id, 0) + 1
+            if isinstance(n, (ast.GeneratorExp, ast.ListComp, ast.SetComp, ast.DictComp)):
+                tn = {x.id for g_ in n.generators for x in ast.walk(g_.target) if isinstance(x, ast.Name)}
+                inner_comps = [m for m in ast.walk(n) if m is not n and isinstance(m, (ast.GeneratorExp, ast.ListComp, ast.SetComp, ast.DictComp))]
+                skip = {id(x) for m in inner_comps for x in ast.walk(m)}
+                for x in ast.walk(n):
+                    if isinstance(x, ast.Name) and x.id in tn and id(x) not in skip:
+                        bound_in[x.id] = bound_in.get(x.id, 0) + 1
+        self._comp_only = {nm for nm, k in bound_in.items() if k == total.get(nm)}
         saved_decl, saved_params = self._declared, self._params
         self._declared = {nm for n in ast.walk(node) if isinstance(n, (ast.Global, ast.Nonlocal)) for nm in n.names}
         a = node.args
@@ -569,6 +611,7 @@ class _N(ast.NodeTransformer):
             | ({a.kwarg.arg} if a.kwarg else set())
         node = self.generic_visit(node)
         self._uses = saved
+        self._comp_only = saved_co
         self._declared, self._params = saved_decl, saved_params
         return node
 
